@@ -132,7 +132,7 @@ class Obj:
         return fmt(self)
 
 
-@dataclass
+@dataclass(eq=False)
 class FuncV:
     node: Any  # ast.FunctionDef | ast.Lambda
     module: Any  # ModInfo
@@ -149,7 +149,7 @@ class FuncV:
         return f"<fn {self.module.name}.{self.qualname}>"
 
 
-@dataclass
+@dataclass(eq=False)
 class ClassV:
     node: ast.ClassDef
     module: Any
@@ -170,7 +170,7 @@ class ExtV:
         return f"<ext {self.name}>"
 
 
-@dataclass
+@dataclass(eq=False)
 class ModV:
     info: Any
 
